@@ -92,7 +92,14 @@ fn pbucket(p: usize) -> &'static str {
 }
 
 fn xclass<const B: Word>(v: &Val<B>, p: usize) -> &'static str {
-    if !v.tag.is_empty() {
+    if v.tag == "huge-scaled" {
+        // long and short significands of the same magnitude are different operand classes
+        if p == 0 || v.digits <= p {
+            "huge-scaled"
+        } else {
+            "huge-scaled,x-long"
+        }
+    } else if !v.tag.is_empty() {
         v.tag
     } else if p == 0 || v.digits <= p {
         "x-fit"
@@ -220,7 +227,11 @@ fn check_res<R: ModeTag, const B: Word>(rec: &mut Rec, site: &str, x: &Real, cas
                 rec.fail(sig(site, "infinite-result", B, R::MODE, p, "", xc), case(), "infinite", x.describe());
                 return;
             }
-            let r = fval(v.repr());
+            let mut r = fval(v.repr());
+            if let Some((_, k)) = x.scale {
+                // the real is f(x) / B^k: scale the result by the same power
+                r.exp -= k;
+            }
             let errs = judge11(x, &r, flag, p, R::MODE, rec);
             if x.undecided() {
                 rec.hit("machinery:undecided");
@@ -429,9 +440,34 @@ fn extreme_vals<const B: Word>(quick: bool) -> Vec<Val<B>> {
         u.push(mk_val::<B>(&-BigInt::one(), e, "huge"));
         u.push(mk_val::<B>(&(pow_b(B as u32, 2) - 1), e - 2, "huge"));
     }
+    // huge arguments with long and short significands (exp is judged through its quotient by a
+    // power of the base): magnitudes B^30 .. 2^55
+    let ks: &[i64] = match B {
+        2 => &[30, 33, 40, 45, 50, 55],
+        3 => &[20, 30, 33],
+        10 => &[10, 12, 15],
+        16 => &[8, 10, 12],
+        _ => &[8, 10],
+    };
+    for &k in ks {
+        let long = pow_b(B as u32, k as u64) + 1;
+        u.push(mk_val::<B>(&long, 0, "huge-scaled"));
+        u.push(mk_val::<B>(&-long.clone(), 0, "huge-scaled"));
+        u.push(mk_val::<B>(&(pow_b(B as u32, (k / 2) as u64) + 1), k - k / 2, "huge-scaled"));
+        u.push(mk_val::<B>(&BigInt::one(), k, "huge-scaled"));
+    }
     // for ln / ln_1p only (exp of them is beyond every enclosure): B^100, B^1000
     u.push(mk_val::<B>(&BigInt::one(), 100, "huge-log-only"));
     u.push(mk_val::<B>(&BigInt::from(3), 1000, "huge-log-only"));
+    u.push(mk_val::<B>(&BigInt::from(7), 5000, "huge-log-only"));
+    // magnitudes around 128 digits, on both sides of 1 (ln switches to taking the exponent out in
+    // base B there)
+    for m in 126i64..=131 {
+        u.push(mk_val::<B>(&BigInt::one(), m, "huge-log-only"));
+        u.push(mk_val::<B>(&(pow_b(B as u32, 2) - 1), m - 1, "huge-log-only"));
+        u.push(mk_val::<B>(&BigInt::one(), -m, "tiny"));
+        u.push(mk_val::<B>(&(pow_b(B as u32, 2) - 1), -m - 1, "tiny"));
+    }
     u
 }
 
@@ -451,7 +487,18 @@ fn extreme<const B: Word>(ctx: &mut Ctx, precs: &[usize]) {
             rec.hit("skipped:exp-of-B^100-has-no-feasible-enclosure");
             return;
         }
-        let real = Real::new(f, v.rat.clone(), Rat::zero(), w0);
+        if v.tag == "huge-scaled" && f == Func::Expm1 && v.rat.is_neg() {
+            // -1 + e^x with e^x < 2^-(10^6): no feasible enclosure of the difference to -1, and the
+            // arguments -10^3 .. -10^6 of the "huge" class already cover this path
+            rec.hit("skipped:exp_m1-of-huge-negative-argument");
+            return;
+        }
+        let real = if v.tag == "huge-scaled" && (f == Func::Exp || (f == Func::Expm1 && !v.rat.is_neg())) {
+            rec.hit("arg:huge,exp-judged-through-scaled-quotient");
+            Real::exp_scaled(f, v.rat.clone(), B as u32, w0)
+        } else {
+            Real::new(f, v.rat.clone(), Rat::zero(), w0)
+        };
         for &p in precs {
             for_all_modes!(call_transc, B, (rec, &real, v, f, p));
         }
@@ -463,7 +510,7 @@ fn extreme<const B: Word>(ctx: &mut Ctx, precs: &[usize]) {
         });
     });
     machinery_classes(ctx, &name);
-    ctx.require_classes(&name, &["within-1ulp", "arg:tiny", "arg:huge", "fbig-method-agrees"]);
+    ctx.require_classes(&name, &["within-1ulp", "arg:tiny", "arg:huge", "arg:huge,exp-judged-through-scaled-quotient", "fbig-method-agrees"]);
 }
 
 // ---------------------------------------------------------------------------------------------
@@ -751,6 +798,22 @@ fn self_check(ctx: &mut Ctx) {
         let t2 = t.add(&t.mul(&t).half()); // t + t^2/2 < expm1(t)
         if lo.cmp(&t2) != Ordering::Less || hi.cmp(&t2) != Ordering::Greater || hi.sub(&lo).cmp(&Rat::scaled(&BigInt::one(), 10, -1015)) != Ordering::Less {
             bad.push("expm1(1e-1000)".into());
+        }
+        // the scaled enclosure of exp (huge arguments) against the direct one on a moderate argument,
+        // in two bases and for exp_m1: direct enclosure / B^k must intersect the scaled one tightly
+        for (f, base, x) in [(Func::Exp, 10u32, Rat::new(BigInt::from(2001), BigInt::from(2))), (Func::Exp, 2, Rat::from_i(-777)), (Func::Expm1, 3, Rat::new(BigInt::from(12345), BigInt::from(7)))] {
+            let sc = Real::exp_scaled(f, x.clone(), base, 64);
+            let (_, k) = sc.scale.unwrap();
+            let (slo, shi) = sc.enclosure(1);
+            let (dlo, dhi) = Real::new(f, x.clone(), Rat::zero(), 64).enclosure(1);
+            let bk = Rat::scaled(&BigInt::one(), base, k);
+            let (dlo, dhi) = (dlo.div(&bk), dhi.div(&bk));
+            let overlap = slo.cmp(&dhi) != Ordering::Greater && dlo.cmp(&shi) != Ordering::Greater;
+            let tight = shi.sub(&slo).cmp(&shi.mul(&Rat::scaled(&BigInt::one(), 2, -100))) == Ordering::Less;
+            let moderate = shi.cmp(&Rat::from_i(base as i64 * base as i64)) == Ordering::Less && slo.cmp(&Rat::new(BigInt::one(), BigInt::from(base * base))) == Ordering::Greater;
+            if !(overlap && tight && moderate) {
+                bad.push(format!("scaled exp enclosure ({}, base {}): overlap {} tight {} moderate {}", f.name(), base, overlap, tight, moderate));
+            }
         }
         // the judge itself: 1/3 at p = 2 base 10
         let third = Real::rational(Rat::new(BigInt::one(), BigInt::from(3)));
